@@ -96,9 +96,11 @@ Inductive qop :=
 | QopAdd (now tnow rnd : Z) (a : answers)
 | QopReady (now : Z).
 
-(* the operation adds no key of K *)
+(* the operation adds no key of K / no id of K at all (neither as key nor among the additionals) *)
 Definition qop_free (K : list Z) (o : qop) : Prop :=
   match o with QopAdd _ _ _ a => AnsAll (key_not_in K) a | QopReady _ => True end.
+Definition qop_free_adds (K : list Z) (o : qop) : Prop :=
+  match o with QopAdd _ _ _ a => AnsAll (free_of K) a | QopReady _ => True end.
 
 Fixpoint qops_run (q : oq) (ops : list qop) : oq * list answers :=
   match ops with
@@ -110,12 +112,29 @@ Fixpoint qops_run (q : oq) (ops : list qop) : oq * list answers :=
       (qf, match sent with Some a => a :: tr | None => tr end)
   end.
 
-Theorem stripped_keys_stay_out : forall (ks : answers) (q : oq),
-  let K := keys ks in
+(* generic form: an entry property that holds after the strip keeps holding, and holds of everything emitted *)
+Lemma QAll_never_emitted (E : entry -> Prop) (okop : qop -> Prop) :
+  (forall now tnow rnd a, okop (QopAdd now tnow rnd a) -> AnsAll E a) ->
+  forall ops, Forall okop ops -> forall q0, QAll E q0 ->
+  forall a, In a (snd (qops_run q0 ops)) -> AnsAll E a.
+Proof.
+  intros Hok ops F. induction F as [|o ops Ho F IH]; intros q0 H0 a Ha; [destruct Ha|].
+  destruct o as [now tnow rnd a0|now]; cbn [qops_run] in Ha.
+  - eapply IH; [|exact Ha]. apply QAll_add; [exact H0|eapply Hok; exact Ho].
+  - destruct (async_ready_body q0 now) as [q' sent] eqn:R.
+    destruct (QAll_ready _ _ _ _ _ R H0) as [H' Hout].
+    destruct (qops_run q' ops) as [qf tr] eqn:Q. cbn [snd] in Ha.
+    assert (Htr : In a tr -> AnsAll E a).
+    { intro Hin. eapply (IH q' H' a). rewrite Q. exact Hin. }
+    destruct sent as [a1|]; [|apply Htr; exact Ha]. destruct Ha as [<-|Ha]; [|apply Htr; exact Ha].
+    apply Hout. reflexivity.
+Qed.
+
+Theorem stripped_keys_stay_out : forall (K : list Z) (q : oq),
   (* groups are dicts *)
   QDict q ->
   (* after the strip no group holds a key of K *)
-  QAll (key_not_in K) (strip_queue ks q) /\
+  QAll (key_not_in K) (strip_queue K q) /\
   (* async_add with answers that have no key in K keeps it so *)
   (forall q1 now tnow rnd a, QAll (key_not_in K) q1 -> AnsAll (key_not_in K) a ->
      QAll (key_not_in K) (async_add q1 now tnow rnd a)) /\
@@ -123,28 +142,56 @@ Theorem stripped_keys_stay_out : forall (ks : answers) (q : oq),
   (forall q1 now q2 out, QAll (key_not_in K) q1 -> async_ready_body q1 now = (q2, out) ->
      QAll (key_not_in K) q2 /\ forall a k, out = Some a -> In k (keys a) -> ~ In k K).
 Proof.
-  intros ks q K D. split; [apply strip_removes; exact D|]. split.
+  intros K q D. split; [apply strip_removes; exact D|]. split.
   - intros q1 now tnow rnd a H1 Ha. apply QAll_add; assumption.
   - intros q1 now q2 out H1 R. destruct (QAll_ready _ _ _ _ _ R H1) as [H2 Hout]. split; [exact H2|].
     intros a k -> Hk. specialize (Hout a eq_refl). apply AnsAll_keys with (k := k) in Hout; assumption.
 Qed.
 
 (* hence: along any later history that does not add a key of K again, async_ready never emits a key of K *)
-Theorem stripped_keys_never_emitted : forall (ks : answers) (q : oq) (ops : list qop),
-  QDict q -> Forall (qop_free (keys ks)) ops ->
-  forall a k, In a (snd (qops_run (strip_queue ks q) ops)) -> In k (keys a) -> ~ In k (keys ks).
+Theorem stripped_keys_never_emitted : forall (K : list Z) (q : oq) (ops : list qop),
+  QDict q -> Forall (qop_free K) ops ->
+  forall a k, In a (snd (qops_run (strip_queue K q) ops)) -> In k (keys a) -> ~ In k K.
 Proof.
-  intros ks q ops D F. pose proof (strip_removes ks q D) as H0. revert H0. generalize (strip_queue ks q) as q0.
-  induction F as [|o ops Ho F IH]; intros q0 H0 a k Ha Hk; [destruct Ha|].
-  destruct o as [now tnow rnd a0|now]; cbn [qops_run] in Ha.
-  - eapply IH; [|exact Ha|exact Hk]. apply QAll_add; assumption.
-  - destruct (async_ready_body q0 now) as [q' sent] eqn:R.
-    destruct (QAll_ready _ _ _ _ _ R H0) as [H' Hout].
-    destruct (qops_run q' ops) as [qf tr] eqn:Q. cbn [snd] in Ha.
-    assert (Htr : In a tr -> ~ In k (keys ks)).
-    { intro Hin. eapply (IH q' H' a k); [|exact Hk]. rewrite Q. exact Hin. }
-    destruct sent as [a1|]; [|apply Htr; exact Ha]. destruct Ha as [<-|Ha]; [|apply Htr; exact Ha].
-    specialize (Hout a1 eq_refl). apply AnsAll_keys with (k := k) in Hout; assumption.
+  intros K q ops D F a k Ha Hk.
+  assert (H : AnsAll (key_not_in K) a).
+  { eapply (QAll_never_emitted (key_not_in K) (qop_free K)); [|exact F|apply strip_removes; exact D|exact Ha].
+    intros now tnow rnd a0 H0. exact H0. }
+  apply AnsAll_keys with (k := k) in H; assumption.
+Qed.
+
+(* the same for the additionals: after the strip no entry of any group mentions an id of K, neither as its key nor among its
+   additionals; async_add with answer sets free of K (keys AND additionals) and async_ready_body keep it so; and nothing that
+   async_ready_body emits mentions an id of K *)
+Theorem stripped_ids_stay_out : forall (K : list Z) (q : oq),
+  QDict q ->
+  QAll (free_of K) (strip_queue K q) /\
+  (* (the additionals are clean even if the groups are not dicts) *)
+  QAll (adds_not_in K) (strip_queue K q) /\
+  (forall q1 now tnow rnd a, QAll (free_of K) q1 -> AnsAll (free_of K) a ->
+     QAll (free_of K) (async_add q1 now tnow rnd a)) /\
+  (forall q1 now q2 out, QAll (free_of K) q1 -> async_ready_body q1 now = (q2, out) ->
+     QAll (free_of K) q2 /\
+     forall a k adds, out = Some a -> In (k, adds) a -> ~ In k K /\ forall x, In x adds -> ~ In x K).
+Proof.
+  intros K q D. split; [apply strip_frees; exact D|]. split; [apply strip_removes_adds|]. split.
+  - intros q1 now tnow rnd a H1 Ha. apply QAll_add; assumption.
+  - intros q1 now q2 out H1 R. destruct (QAll_ready _ _ _ _ _ R H1) as [H2 Hout]. split; [exact H2|].
+    intros a k adds -> Hin. specialize (Hout a eq_refl). unfold AnsAll in Hout. rewrite Forall_forall in Hout.
+    destruct (Hout _ Hin) as [Hk Ha]. split; [exact Hk|]. intros x Hx. apply (Ha x). exact Hx.
+Qed.
+
+Theorem stripped_ids_never_emitted : forall (K : list Z) (q : oq) (ops : list qop),
+  QDict q -> Forall (qop_free_adds K) ops ->
+  forall a k adds, In a (snd (qops_run (strip_queue K q) ops)) -> In (k, adds) a ->
+    ~ In k K /\ forall x, In x adds -> ~ In x K.
+Proof.
+  intros K q ops D F a k adds Ha Hin.
+  assert (H : AnsAll (free_of K) a).
+  { eapply (QAll_never_emitted (free_of K) (qop_free_adds K)); [|exact F|apply strip_frees; exact D|exact Ha].
+    intros now tnow rnd a0 H0. exact H0. }
+  unfold AnsAll in H. rewrite Forall_forall in H. destruct (H _ Hin) as [Hk Hadds].
+  split; [exact Hk|]. intros x Hx. apply (Hadds x). exact Hx.
 Qed.
 
 (* ====================================================================================================== *)
@@ -196,12 +243,6 @@ Section Node.
   Definition tasks_ok (n : node) : Prop := forall i b, In (i, b) (n_tasks n) -> task_ok b.
   Definition bye_ok (n : node) : Prop := forall m, n_bye n = Some m -> msg_ok W m.
 
-  (* a queued answer that is not itself withdrawn carries no withdrawn record among its additionals *)
-  Definition EntAddsOK (tbl : list pyrec) (e : entry) : Prop :=
-    forall x, resolves tbl (fst e) x -> NW W x -> forall a y, In a (snd e) -> resolves tbl a y -> NW W y.
-  Definition queue_additionals_ok (n : node) : Prop :=
-    QAll (EntAddsOK (n_tbl n)) (n_q n) /\ QAll (EntAddsOK (n_tbl n)) (n_qd n).
-
   (* ---- the invariant of the post-states ---- *)
   Definition Quiet (n : node) : Prop :=
     RegClean W (n_reg n) /\ TblInv (n_tbl n) /\
@@ -209,6 +250,12 @@ Section Node.
     tasks_ok n /\ bye_ok n.
 
   Definition out_ok (o : nout) : Prop := match o with OSend _ _ m => msg_ok W m | _ => True end.
+
+  Lemma EntOK_prune (P : pyrec -> Prop) tbl ids e : EntOK P tbl e -> EntOK P tbl (prune_adds ids e).
+  Proof.
+    intros [H1 H2]. split; [exact H1|]. cbn [prune_adds snd]. rewrite Forall_forall in *. intros a Ha.
+    apply filter_In in Ha as [Ha _]. apply H2. exact Ha.
+  Qed.
 
   Lemma gate_in n outs o : In o (gate n outs) -> In o outs.
   Proof. unfold gate. destruct (n_done n); [intro H; apply filter_In in H; tauto|auto]. Qed.
@@ -360,8 +407,8 @@ Section Node.
         repeat split; cbn [set_queues set_reg n_reg n_tbl n_q n_qd n_tasks n_bye].
         * eapply RegClean_sub; [|exact Q1]. intros s0. apply registered_remove.
         * auto.
-        * eapply QAll_EntOK_ext; [exact X|]. apply (QAll_strip _ (map (fun i => (i, [])) ids)). exact Q3.
-        * eapply QAll_EntOK_ext; [exact X|]. apply (QAll_strip _ (map (fun i => (i, [])) ids)). exact Q4.
+        * eapply QAll_EntOK_ext; [exact X|]. apply (QAll_strip _ ids); [apply EntOK_prune|exact Q3].
+        * eapply QAll_EntOK_ext; [exact X|]. apply (QAll_strip _ ids); [apply EntOK_prune|exact Q4].
         * intros i b0 Hin. apply zd_set_in in Hin as [Hin|Hin]; [eapply Q5; exact Hin|]. inversion Hin; subst.
           apply goodbye_task_ok.
         * exact Q6.
@@ -496,30 +543,30 @@ Proof.
   - apply nth_error_None in N. lia.
 Qed.
 
-Lemma keys_of_ids (ids : list Z) : keys (map (fun i => (i, @nil Z)) ids) = ids.
-Proof. unfold keys. rewrite map_map. cbn [fst]. apply map_id. Qed.
-
-(* stripping the withdrawn ids from a queue leaves only entries that do not name a withdrawn identity *)
+(* stripping the withdrawn ids from a queue leaves only entries that do not name a withdrawn identity - neither as the
+   answer nor among its additionals *)
 Lemma strip_quiet W tbl tbl' ids q :
   TblInv tbl' -> ext tbl tbl' -> Forall2 (names tbl') ids W ->
-  QDict q -> QAll (EntRange tbl) q -> QAll (EntAddsOK W tbl) q ->
-  QAll (EntOK (NW W) tbl') (strip_queue (map (fun i => (i, [])) ids) q).
+  QDict q -> QAll (EntRange tbl) q ->
+  QAll (EntOK (NW W) tbl') (strip_queue ids q).
 Proof.
-  intros T X F D HR HA. apply QAll_intro. intros g' e Hg' He.
-  pose proof (QAll_in _ _ _ _ (strip_removes _ _ D) Hg' He) as Hnk. unfold key_not_in in Hnk. rewrite keys_of_ids in Hnk.
-  destruct (strip_groups_in _ _ _ _ Hg' He) as (g & Hg & Heg & _).
-  destruct (QAll_in _ _ _ _ HR Hg Heg) as [Rk Radds]. pose proof (QAll_in _ _ _ _ HA Hg Heg) as Hadds.
-  destruct (in_range_resolves _ _ Rk) as (x & Hx).
-  assert (NWx : NW W x).
-  { intros (w & Hw & Ew). destruct (Forall2_in_r _ _ _ _ F Hw) as (i & Hi & y & Hy & Ey).
-    assert (i = fst e).
+  intros T X F D HR. apply QAll_intro. intros g' e Hg' He.
+  destruct (QAll_in _ _ _ _ (strip_frees _ _ D) Hg' He) as [Hnk Hna]. unfold key_not_in in Hnk.
+  destruct (strip_groups_in _ _ _ _ Hg' He) as (g & e0 & Hg & He0 & ->).
+  destruct (QAll_in _ _ _ _ HR Hg He0) as [Rk Radds].
+  (* an id of the old table that is not one of the withdrawn ids names a record that is not withdrawn *)
+  assert (Key : forall i, in_range tbl i -> ~ In i ids -> IdAll (NW W) tbl' i).
+  { intros i Ri Hni. destruct (in_range_resolves _ _ Ri) as (x & Hx). exists x.
+    split; [eapply resolves_ext; eassumption|].
+    intros (w & Hw & Ew). destruct (Forall2_in_r _ _ _ _ F Hw) as (i' & Hi' & y & Hy & Ey).
+    assert (i' = i).
     { eapply (TblInv_resolves tbl'); [exact T|exact Hy|eapply resolves_ext; eassumption|].
       eapply eq_trans_; eassumption. }
-    subst i. contradiction. }
+    subst i'. contradiction. }
   split.
-  - exists x. split; [eapply resolves_ext; eassumption|exact NWx].
-  - apply Forall_forall. intros a Ha. rewrite Forall_forall in Radds. destruct (in_range_resolves _ _ (Radds a Ha)) as (y & Hy).
-    exists y. split; [eapply resolves_ext; eassumption|]. eapply Hadds; eassumption.
+  - apply Key; [exact Rk|exact Hnk].
+  - apply Forall_forall. intros a Ha. apply Key; [|apply (Hna a Ha)].
+    cbn [prune_adds snd] in Ha. apply filter_In in Ha as [Ha _]. rewrite Forall_forall in Radds. apply Radds. exact Ha.
 Qed.
 
 Lemma unregister_quiet n id now key s n1 outs :
@@ -528,10 +575,9 @@ Lemma unregister_quiet n id now key s n1 outs :
   nstep n (LUnregister id now key) = (n1, outs) ->
   lower (s_type s) <> C_SERVICE_TYPE_ENUMERATION_NAME ->
   tasks_ok (withdrawn_records (n_reg n) s) n -> bye_ok (withdrawn_records (n_reg n) s) n ->
-  queue_additionals_ok (withdrawn_records (n_reg n) s) n ->
   Quiet (withdrawn_records (n_reg n) s) n1.
 Proof.
-  intros RI (T & D1 & D2 & R1 & R2) G H NE HT HB (A1 & A2).
+  intros RI (T & D1 & D2 & R1 & R2) G H NE HT HB.
   pose proof (remaining_clean _ _ _ RI G) as RC.
   set (W := withdrawn_records (n_reg n) s) in *.
   cbn [nstep] in H. rewrite G in H.
@@ -551,27 +597,29 @@ Proof.
 Qed.
 
 (* ---- no resurrection ---- *)
-(* From a node whose pending tasks, shutdown message and queued additionals do not already carry the records of s,
-   after async_unregister_service(s) and as long as nothing is registered again, no message the node sends carries - as
+(* After async_unregister_service(s), and as long as nothing is registered again, no message the node sends carries - as
    answer or additional - a record with TTL > 0 that has the identity of a withdrawn record (PTR, SRV, TXT of s; its address and
-   NSEC records when no remaining service shares the host).  The goodbye task's messages carry them with TTL 0. *)
-Theorem no_resurrection_partial : forall n id now key s n1 outs,
+   NSEC records when no remaining service shares the host).  The goodbye task's messages carry them with TTL 0.
+   Assumed of the pre-state: no other task (e.g. the announcement of s, if it is still running) and no shutdown message
+   carries those records with a positive TTL.  The outgoing queues need no assumption beyond the interning invariant:
+   async_remove_answers takes the withdrawn records out as answers and as additionals. *)
+Theorem no_resurrection : forall n id now key s n1 outs,
   RegInv (n_reg n) -> InternInv n ->
   d_get text_eqb (g_services (n_reg n)) key = Some s ->
   nstep n (LUnregister id now key) = (n1, outs) ->
   let W := withdrawn_records (n_reg n) s in
   (* side condition of the derivation from the registry: s is not registered under the service-type-enumeration name *)
   lower (s_type s) <> C_SERVICE_TYPE_ENUMERATION_NAME ->
-  (* the pre-state is settled w.r.t. s *)
-  tasks_ok W n -> bye_ok W n -> queue_additionals_ok W n ->
+  (* nothing else is still announcing s *)
+  tasks_ok W n -> bye_ok W n ->
   forall ls, Forall calm ls ->
   forall outs' t d m r,
     In outs' (nrun n1 ls) -> In (OSend t d m) outs' ->
     In r (map fst (o_answers m) ++ o_additionals m) -> p_ttl r > 0 ->
     forall w, In w W -> gen_eq w r = false.
 Proof.
-  intros n id now key s n1 outs RI II G H W NE HT HB HA ls C outs' t d m r Ho Hs Hr Ht w Hw.
-  pose proof (unregister_quiet _ _ _ _ _ _ _ RI II G H NE HT HB HA) as Q.
+  intros n id now key s n1 outs RI II G H W NE HT HB ls C outs' t d m r Ho Hs Hr Ht w Hw.
+  pose proof (unregister_quiet _ _ _ _ _ _ _ RI II G H NE HT HB) as Q.
   pose proof (withdrawn_enum_clean (n_reg n) s NE) as EC.
   pose proof (quiet_run W ls EC C n1 Q) as F. rewrite Forall_forall in F. specialize (F _ Ho).
   rewrite Forall_forall in F. specialize (F _ Hs). cbn [out_ok] in F. specialize (F r Hr Ht).
@@ -598,9 +646,152 @@ Proof.
   { intros E q Hq. unfold QAll. rewrite Hq. constructor. }
   assert (QD : forall q, q_groups q = [] -> QDict q).
   { intros q Hq. unfold QDict. rewrite Hq. constructor. }
-  eapply no_resurrection_partial; try eassumption.
+  eapply no_resurrection; try eassumption.
   - repeat split; auto.
   - intros i b Hin. left. eapply HT. exact Hin.
   - intros m Hm. rewrite HB in Hm. discriminate.
-  - split; apply QE; assumption.
 Qed.
+
+(* ====================================================================================================== *)
+(* 4. why the extra hypotheses are there: counterexamples                                                  *)
+(* ====================================================================================================== *)
+
+(* '_t._tcp.local.' and 'h.local.' *)
+Definition cx_type : text := [95;116;46;95;116;99;112;46;108;111;99;97;108;46].
+Definition cx_host : text := [104;46;108;111;99;97;108;46].
+Definition cx_svc (c : Z) (v4 v6 : list bytes) : svc :=
+  {| s_type := cx_type; s_name := [c; 46] ++ cx_type; s_server := cx_host; s_port := 80; s_weight := 0; s_priority := 0;
+     s_text := []; s_host_ttl := 120; s_other_ttl := 4500; s_v4 := v4; s_v6 := v6 |}.
+
+(* does the output carry a record with TTL > 0 that has the identity of a record in W? *)
+Definition resurrects (W : list pyrec) (o : nout) : bool :=
+  match o with
+  | OSend _ _ m => existsb (fun r => (0 <? p_ttl r) && existsb (fun w => gen_eq w r) W) (map fst (o_answers m) ++ o_additionals m)
+  | _ => false
+  end.
+
+Lemma TblInv_nil : TblInv [].
+Proof. intros i j x y Hi. destruct i; discriminate. Qed.
+
+Fixpoint fresh_all (tbl : list pyrec) : bool :=
+  match tbl with [] => true | x :: r => forallb (fun y => negb (gen_eq x y)) r && fresh_all r end.
+
+Lemma fresh_all_sound tbl : fresh_all tbl = true -> TblInv tbl.
+Proof.
+  induction tbl as [|a tbl IH]; intro H; [apply TblInv_nil|]. cbn [fresh_all] in H. apply andb_true_iff in H as [H1 H2].
+  rewrite forallb_forall in H1. intros i j x y Hi Hj E. destruct i as [|i], j as [|j]; cbn [nth_error] in Hi, Hj.
+  - reflexivity.
+  - inversion Hi; subst. apply nth_error_In in Hj. apply H1 in Hj. rewrite E in Hj. discriminate.
+  - inversion Hj; subst. apply nth_error_In in Hi. apply H1 in Hi. rewrite eq_sym_, E in Hi. discriminate.
+  - f_equal. eapply IH; eassumption.
+Qed.
+
+(* (a) the sketched statement - only RegInv and the interning invariant - is false: a service is registered and unregistered
+   before its announcement task has finished; the task goes on announcing it with the full TTL after the goodbye *)
+Definition cxa_s : svc := cx_svc 97 [[10;0;0;1]] [].
+Definition cxa_n : node := nstate node_init [LRegister 1 0 cxa_s true false true].
+
+Theorem no_resurrection_refuted :
+  ~ (forall n id now key s n1 outs,
+       RegInv (n_reg n) -> InternInv n ->
+       d_get text_eqb (g_services (n_reg n)) key = Some s ->
+       nstep n (LUnregister id now key) = (n1, outs) ->
+       lower (s_type s) <> C_SERVICE_TYPE_ENUMERATION_NAME ->
+       forall ls, Forall calm ls ->
+       forall outs' t d m r,
+         In outs' (nrun n1 ls) -> In (OSend t d m) outs' ->
+         In r (map fst (o_answers m) ++ o_additionals m) -> p_ttl r > 0 ->
+         forall w, In w (withdrawn_records (n_reg n) s) -> gen_eq w r = false).
+Proof.
+  intro H.
+  assert (RI : RegInv (n_reg cxa_n)).
+  { replace (n_reg cxa_n) with (reg_run [OpAdd cxa_s]) by (vm_compute; reflexivity). apply reg_run_inv. }
+  assert (II : InternInv cxa_n).
+  { unfold InternInv, QDict, QAll. change (n_tbl cxa_n) with (@nil pyrec).
+    change (q_groups (n_q cxa_n)) with (@nil group). change (q_groups (n_qd cxa_n)) with (@nil group).
+    repeat split; try constructor. apply TblInv_nil. }
+  specialize (H cxa_n 2 1000 (s_key cxa_s) cxa_s
+                (fst (nstep cxa_n (LUnregister 2 1000 (s_key cxa_s)))) (snd (nstep cxa_n (LUnregister 2 1000 (s_key cxa_s))))
+                RI II).
+  assert (E : gen_eq (dns_pointer cxa_s) (dns_pointer cxa_s) = false).
+  { eapply (H eq_refl (surjective_pairing _)) with
+        (ls := [LBcast 1 1002]) (t := 1002) (d := None) (m := broadcast_msg (broadcast_records cxa_s None true))
+        (outs' := [OSend 1002 None (broadcast_msg (broadcast_records cxa_s None true)); OWait 225]).
+    - vm_compute. discriminate.
+    - constructor; [exact I|constructor].
+    - left. vm_compute. reflexivity.
+    - left. reflexivity.
+    - left. reflexivity.
+    - vm_compute. reflexivity.
+    - left. reflexivity. }
+  rewrite eq_refl_ in E. discriminate.
+Qed.
+
+(* (b) the history that defeated the first C08 repair (which stripped the withdrawn records only as answers): two services
+   share a host; s1 has an A and an AAAA address, s2 only the AAAA address.  A query puts "A -> additional AAAA" into the
+   aggregation queue.  s1 is unregistered (the host is shared: its addresses stay), then s2 (nobody shares the host any more: the
+   AAAA record is withdrawn).  The A entry is still queued; before async_remove_answers also pruned the additionals it dragged the
+   withdrawn AAAA record along with TTL 120 after all goodbyes had been sent.  Now the very same history lets nothing withdrawn
+   out: what async_ready sends at 5100 is the A record alone (an instance of no_resurrection; here by computation). *)
+Definition cxb_v6 : bytes := [1;2;3;4;5;6;7;8;9;10;11;12;13;14;15;16].
+Definition cxb_s1 : svc := cx_svc 97 [[10;0;0;1]] [cxb_v6].
+Definition cxb_s2 : svc := cx_svc 98 [] [cxb_v6].
+Definition cxb_query : qmsg :=
+  {| qm_questions := [blank KQuestion cx_host C_TYPE_A C_CLASS_IN 0; blank KQuestion cx_type C_TYPE_PTR C_CLASS_IN 0];
+     qm_answers := []; qm_is_probe := false; qm_now := 5000 |}.
+Definition cxb_history : list nlabel :=
+  [LRegister 1 0 cxb_s1 true false true; LRegister 2 0 cxb_s2 true false true;
+   LBcast 1 1; LBcast 1 2; LBcast 1 3; LBcast 2 1; LBcast 2 2; LBcast 2 3;          (* both announcements complete *)
+   LQuery 5000 [cxb_query] 0 [49] 5353 20 20;
+   LUnregister 3 5010 (s_key cxb_s1); LBcast 3 5011; LBcast 3 5012; LBcast 3 5013].  (* s1 gone, its goodbyes sent *)
+Definition cxb_n : node := nstate node_init cxb_history.
+Definition cxb_W : list pyrec := withdrawn_records (n_reg cxb_n) cxb_s2.
+Definition cxb_later : list nlabel := [LBcast 4 5021; LBcast 4 5022; LBcast 4 5023; LReady false 5100].
+
+Example cxb_settled :
+  map (fun x => bc_left (snd x)) (n_tasks cxb_n) = [0; 0; 0] /\ n_bye cxb_n = None /\
+  names_of (n_reg cxb_n) = [s_key cxb_s2].
+Proof. vm_compute. auto. Qed.
+
+Example cxb_no_resurrection :
+  map (map (resurrects cxb_W)) (nrun cxb_n (LUnregister 4 5020 (s_key cxb_s2) :: cxb_later)) =
+  [[false]; [false; false]; [false; false]; [false; false]; [false]].
+Proof. vm_compute. reflexivity. Qed.
+
+(* what is left of the queued entry: the answer (kind, type, TTL) without additionals *)
+Example cxb_last_send :
+  match last (nrun cxb_n (LUnregister 4 5020 (s_key cxb_s2) :: cxb_later)) [] with
+  | [OSend 5100 None m] => (map (fun ra => (p_kind (fst ra), p_type_ (fst ra), p_ttl (fst ra))) (o_answers m), o_additionals m)
+  | _ => ([], [])
+  end = ([(KAddress, C_TYPE_A, 120)], []).
+Proof. vm_compute. reflexivity. Qed.
+
+(* (c) the side condition on the type: a "service" registered under the service-type-enumeration name whose instance name is the
+   type of another registered service has a PTR record with the identity of that type's enumeration pointer; the enumeration
+   answer for the remaining service brings it back *)
+Definition cxc_s : svc :=
+  {| s_type := C_SERVICE_TYPE_ENUMERATION_NAME; s_name := cx_type; s_server := [120; 46]; s_port := 1; s_weight := 0; s_priority := 0;
+     s_text := []; s_host_ttl := 120; s_other_ttl := 4500; s_v4 := []; s_v6 := [] |}.
+Definition cxc_n : node := set_reg node_init (reg_run [OpAdd cxc_s; OpAdd cxa_s]) [] [].
+Definition cxc_query : qmsg :=
+  {| qm_questions := [blank KQuestion C_SERVICE_TYPE_ENUMERATION_NAME C_TYPE_PTR C_CLASS_IN 0];
+     qm_answers := []; qm_is_probe := false; qm_now := 10 |}.
+
+Example cxc_resurrection :
+  map (map (resurrects (withdrawn_records (n_reg cxc_n) cxc_s)))
+      (nrun cxc_n [LUnregister 1 0 (s_key cxc_s); LQuery 10 [cxc_query] 0 [49] 5353 20 20; LReady false 600]) =
+  [[false]; []; [true]].
+Proof. vm_compute. reflexivity. Qed.
+
+Print Assumptions goodbye_content.
+Print Assumptions stripped_keys_stay_out.
+Print Assumptions stripped_keys_never_emitted.
+Print Assumptions stripped_ids_stay_out.
+Print Assumptions stripped_ids_never_emitted.
+Print Assumptions no_resurrection.
+Print Assumptions no_resurrection_idle.
+Print Assumptions no_resurrection_refuted.
+Print Assumptions cxb_settled.
+Print Assumptions cxb_no_resurrection.
+Print Assumptions cxb_last_send.
+Print Assumptions cxc_resurrection.
